@@ -17,22 +17,26 @@ import json
 import os
 import signal
 
-RULE = ("cases: every edge set on sides a x b (a,b <= 3 quick, <= 4 thorough) in canonical entry order "
-        "and in shuffled orders with duplicated entries; random graphs up to 12x12 (uniform density, "
-        "paths, crowns, unbalanced, near-perfect, planted isolated vertices), entry order shuffled, entries "
-        "duplicated; a few malformed inputs (asserts). non-trivial = distinct (sides, entry list) with at "
-        "least one edge for which first-fit greedy matching in adjacency order is not maximum, or the cover "
-        "uses both sides, or entries are duplicated")
-PARTIAL = ["fuel of the outer Hopcroft-Karp loop is never exhausted (hk_phase_progress: a successful BFS "
-           "phase augments at least once) - not proved; exhaustion is a distinct model output and a "
-           "correspondence failure",
-           "Python exceptions for missing dict keys / list indices are not modelled (total functions); "
-           "an exception on the implementation side is an oracle failure"]
+RULE = ("cases: every edge set on sides a x b (quick: a,b <= 3 in canonical, reversed and shuffled/duplicated "
+        "entry order plus 3x4, 4x3 canonical; thorough: a,b <= 4 plus 5x2, 2x5, 6x2, 2x6, 5x3, 3x5); random "
+        "graphs up to 12x12 (uniform density, sparse, dense, planted isolated vertices, long vertex-disjoint "
+        "paths, crowns, unbalanced, near-perfect, hub layers), entry order shuffled, entries duplicated; a few "
+        "malformed inputs (constructor asserts); corpus of mutation witnesses first. non-trivial = distinct "
+        "(sides, entry list) with at least one edge for which first-fit greedy matching in adjacency order is "
+        "not maximum, or the cover uses both sides, or entries are duplicated")
+PARTIAL = ["Python exceptions for missing dict keys / list indices are not modelled (the model uses total "
+           "functions; every key read is written before); an exception on the implementation side is an "
+           "oracle failure",
+           "Python sets are modelled by ascending lists (sorted(list(set)) = the list); the iteration order "
+           "of the set `alist` is not modelled (the result does not depend on it: per-start visited lists, "
+           "commuting set updates) - validated by correspondence only"]
 ASSUMPTIONS = ["iteration order of the Python set `alist` does not influence the result (visited lists are "
                "per start, set updates commute)",
                "asserts are enabled (no python -O)"]
 
-CASE_TIMEOUT_S = 5
+CASE_TIMEOUT_S = 3
+MAX_TIMEOUTS = 3      # after that many non-terminating cases the run stops (failures are recorded)
+_timeouts = [0]
 
 
 class _Timeout(Exception):
@@ -206,10 +210,20 @@ def gen_cases(ctx):
     big = ctx.tier == "thorough" or ctx.scale > 1
     if big:
         cases.extend(exhaustive_cases(rng, 4, 1))
-        ctx.notes["exhaustive_sides"] = "all edge sets for a x b, a,b <= 4 (canonical order + every third shuffled/duplicated)"
+        for (a, b) in ((5, 2), (2, 5), (6, 2), (2, 6), (5, 3), (3, 5)):
+            cells = [(u, v) for u in range(a) for v in range(b)]
+            for mask in range(1 << (a * b)):
+                cases.append({"nU": a, "nV": b, "edges": [list(cells[i]) for i in range(a * b) if mask >> i & 1]})
+        ctx.notes["exhaustive_sides"] = ("all edge sets for a x b, a,b <= 4 (canonical order + every third "
+                                         "shuffled/duplicated) and 5x2, 2x5, 6x2, 2x6, 5x3, 3x5 (canonical)")
     else:
         cases.extend(exhaustive_cases(rng, 3, 4))
-        ctx.notes["exhaustive_sides"] = "all edge sets for a x b, a,b <= 3 (canonical, reversed, 2 shuffled/duplicated)"
+        for (a, b) in ((3, 4), (4, 3)):
+            cells = [(u, v) for u in range(a) for v in range(b)]
+            for mask in range(1 << (a * b)):
+                cases.append({"nU": a, "nV": b, "edges": [list(cells[i]) for i in range(a * b) if mask >> i & 1]})
+        ctx.notes["exhaustive_sides"] = ("all edge sets for a x b, a,b <= 3 (canonical, reversed, 2 shuffled/duplicated) "
+                                         "and 3x4, 4x3 (canonical)")
     ctx.exhaustive = True
     for c in MALFORMED:
         cases.append(dict(c))
@@ -227,6 +241,7 @@ def _lines(case):
 
 
 def run(ctx):
+    _timeouts[0] = 0
     corpus = []
     for path in sorted(glob.glob(os.path.join(os.path.dirname(__file__), "..", "..", "corpus", "C14", "*.json"))):
         try:
@@ -243,7 +258,7 @@ def run(ctx):
     old = signal.signal(signal.SIGALRM, _alarm)
     try:
         for i, c in enumerate(cases):
-            if ctx.time_left() < 0:
+            if ctx.time_left() < 0 or _timeouts[0] >= MAX_TIMEOUTS:
                 break
             run_case(ctx, c, (outs[2 * i], outs[2 * i + 1]))
     finally:
@@ -279,6 +294,7 @@ def _impl(case):
             res["matching"] = [(int(a), int(b)) for a, b in hk()]
             res["phases"] = hk.phases
         except _Timeout:
+            _timeouts[0] += 1
             res["matching_error"] = f"HopcroftKarp did not return within {CASE_TIMEOUT_S}s"
         except Exception as e:  # noqa: BLE001
             res["matching_error"] = f"HopcroftKarp raised {type(e).__name__}: {str(e)[:100]}"
@@ -287,6 +303,7 @@ def _impl(case):
             cu, cv = minimum_vertex_cover(g)
             res["cover"] = (list(cu), list(cv))
         except _Timeout:
+            _timeouts[0] += 1
             res["cover_error"] = f"minimum_vertex_cover did not return within {CASE_TIMEOUT_S}s"
         except AssertionError:
             res["cover_error"] = "minimum_vertex_cover raised AssertionError (size of cover != size of matching)"
